@@ -339,8 +339,17 @@ impl Ctx {
         &self.findings
     }
 
+    /// Exact key first; otherwise a root-cause key written `<root cause>/*`
+    /// matches every signature `<root cause>/<variant>` (used where the variant
+    /// part only names which engines showed the same root cause).
     fn known_status(&self, signature: &str) -> Option<&Finding> {
-        self.findings.iter().find(|f| f.key == signature)
+        if let Some(f) = self.findings.iter().find(|f| f.key == signature) {
+            return Some(f);
+        }
+        let (root, _) = signature.rsplit_once('/')?;
+        self.findings
+            .iter()
+            .find(|f| f.key.strip_suffix("/*") == Some(root))
     }
 
     fn account_pass(&self, sub: &str, info: &CaseInfo) {
